@@ -11,6 +11,7 @@ pub fn run(ctx: &Ctx) -> i32 {
             "iomodel" => replay_one(ctx, &IoEngine, &rf),
             "iomodel-pair" => replay_one(ctx, &PairEngine, &rf),
             "iomodel-tlspair" => replay_one(ctx, &TlsPairEngine, &rf),
+            "sniff" => replay_one(ctx, &crate::engines::sniff::SniffRewindEngine, &rf),
             other => Err(format!("unknown engine {other}")),
         }) {
             Ok(c) => c,
@@ -24,6 +25,8 @@ pub fn run(ctx: &Ctx) -> i32 {
     total.merge(run_generated(ctx, &IoEngine, "wrappers-over-scripted-inner", strategy, ctx.cases(300_000, 10_000_000), 2000));
     total.merge(run_generated(ctx, &PairEngine, "duplex-pairs", || pair_strategy(0..2), ctx.cases(40_000, 1_500_000), 1000));
     total.merge(run_generated(ctx, &TlsPairEngine, "tls-pairs", tls_pair_strategy, ctx.cases(6_000, 300_000), 300));
+    // the sniffer + rewind buffer in front of hyper, driven with exact chunk boundaries and Pending results
+    total.merge(run_generated(ctx, &crate::engines::sniff::SniffRewindEngine, "sniffing-rewind", crate::engines::sniff::strategy, ctx.cases(20_000, 600_000), 300));
     let sock_ctx = Ctx { threads: 8, ..ctx.clone() };
     total.merge(run_generated(&sock_ctx, &PairEngine, "tcp-unix-pairs", || pair_strategy(2..4), ctx.cases(1_500, 60_000), 300));
     if ctx.tier == Tier::Thorough && std::env::var_os("VERIF_NO_FUZZ").is_none() {
@@ -40,7 +43,7 @@ pub fn run(ctx: &Ctx) -> i32 {
         started,
         total,
         Finish {
-            rule: "wrapper leg: program of read(cap, prefilled)/write(len)/write_vectored(lens)/flush/shutdown with capacities incl. 0 and 1 applied to TokioIo (both directions and round trip), Rewind (hook) with arbitrary prefix, client/server Stream and TlsBraid::NoTls over a scripted inner stream whose read/write scripts contain short transfers, Pending, errors and EOF; every outward result is compared with what the inner returned during that call and the delivered/accepted byte streams with the reference FIFO. pair leg: the same kind of program over in-process duplex pairs (raw and wrapped in Braid + client/server Stream) and over real TCP / Unix socket pairs wrapped the same way. tls leg: client Stream::tls (lazy handshake) over a duplex pipe of 1 B-64 KiB against the server-side TlsStream over Braid, both ends driven concurrently in virtual time with scripted read-buffer sizes; the decrypted streams must equal the reference FIFO in both directions and end-of-stream must follow (only) a shutdown. non-trivial = a partial transfer or Pending result occurred and bytes moved; distinct by hash of the case".into(),
+            rule: "wrapper leg: program of read(cap, prefilled)/write(len)/write_vectored(lens)/flush/shutdown with capacities incl. 0 and 1 applied to TokioIo (both directions and round trip), Rewind (hook) with arbitrary prefix, client/server Stream and TlsBraid::NoTls over a scripted inner stream whose read/write scripts contain short transfers, Pending, errors and EOF; every outward result is compared with what the inner returned during that call and the delivered/accepted byte streams with the reference FIFO. pair leg: the same kind of program over in-process duplex pairs (raw and wrapped in Braid + client/server Stream) and over real TCP / Unix socket pairs wrapped the same way. sniffing-rewind leg: byte streams from the C08 grammar delivered to server::conn::auto::Builder with exact chunk boundaries and Pending results; the answer must not depend on the fragmentation and must equal the single-protocol server's (where that reference is itself fragmentation-invariant). tls leg: client Stream::tls (lazy handshake) over a duplex pipe of 1 B-64 KiB against the server-side TlsStream over Braid, both ends driven concurrently in virtual time with scripted read-buffer sizes; the decrypted streams must equal the reference FIFO in both directions and end-of-stream must follow (only) a shutdown. non-trivial = a partial transfer or Pending result occurred and bytes moved; distinct by hash of the case".into(),
             assumptions: vec![
                 "wrapper adapters are pass-through (no internal buffering), so delivered == handed out after every call; the Rewind prefix is delivered first and in order".into(),
                 "TCP/Unix legs use real loopback sockets with 5 s real-time guards; a guard expiry while data is outstanding is reported as lost bytes only in the final drain".into(),
